@@ -194,6 +194,9 @@ def d2_contents(facts, rep):
         rep.ob('D2', 'K1', fn, 'calloc zero-fills every non-null block it returns', not bad,
                'a path returns the block without the memset (%s): a block that is reused from a cache (any size once the huge size threshold '
                'is configured) comes back with its old contents' % '; '.join(bad[:2]), key_extra='always-zero')
+    # a calloc whose product wrapped returns a block smaller than requested: the overflow rules of C18 are part of this clause too
+    from rules.C18 import calloc_overflow
+    calloc_overflow(facts, rep, 'D2')
     for fn in facts.get(RI + 'reallocAligned'):
         mc = calls_named(fn, ('memcpy',))
         fr = calls_named(fn, ('internalPoolFree',))
